@@ -40,12 +40,14 @@ type TxCls struct {
 
 // Beh is one behaviour.
 type Beh struct {
-	Kind string   `json:"kind"` // "apply" | "sig"
+	Kind string   `json:"kind"` // "apply" | "sig" | "sigseq"
 	Mode string   `json:"mode"`
 	Pool uint64   `json:"pool"`
 	Txs  []TxCls  `json:"txs"`
 	Tx   *TxCls   `json:"tx"`
 	Muts []string `json:"muts"`
+	Mut  string   `json:"mut"` // "sigseq": the mutation that made the object
+	Seq  []string `json:"seq"` // "sigseq": the signers asked, in order
 }
 
 const (
@@ -408,108 +410,156 @@ var secpN, _ = new(big.Int).SetString("fffffffffffffffffffffffffffffffebaaedce6a
 var AllMutations = []string{"none", "nonce", "price", "limit", "to", "value", "data", "data_trunc", "netid_v", "netid_signer", "netid_replay", "highs", "highs_flipv",
 	"flipv", "unprotected", "r"}
 
-func (w *world) sig(env *drive.Env, b *Beh) error {
+// mutate returns the RLP form of tx with mutation m applied (foreign: the mutation is "ask the signer of another network").
+func (w *world) mutate(tx *types.Transaction, t *concrete, m string) (raw rawTx, foreign bool, err error) {
+	v, r, s := tx.RawSignatureValues()
+	raw = rawTx{Nonce: tx.Nonce(), Price: tx.GasPrice(), Limit: tx.Gas(), To: tx.To(), Value: tx.Value(), Data: tx.Data(),
+		V: new(big.Int).Set(v), R: new(big.Int).Set(r), S: new(big.Int).Set(s)}
+	flip := func() {
+		// V = 35 + 2*net + parity: flip the parity
+		par := new(big.Int).Sub(raw.V, big.NewInt(35))
+		if par.Bit(0) == 0 {
+			raw.V.Add(raw.V, big.NewInt(1))
+		} else {
+			raw.V.Sub(raw.V, big.NewInt(1))
+		}
+	}
+	switch m {
+	case "none":
+	case "nonce":
+		raw.Nonce++
+	case "price":
+		raw.Price = new(big.Int).Add(raw.Price, big.NewInt(1))
+	case "limit":
+		raw.Limit++
+	case "to":
+		if raw.To == nil {
+			a := addrRcpt
+			raw.To = &a
+		} else if t.Value%2 == 0 {
+			raw.To = nil
+		} else {
+			a := *raw.To
+			a[19] ^= 1
+			raw.To = &a
+		}
+	case "value":
+		raw.Value = new(big.Int).Add(raw.Value, big.NewInt(1))
+	case "data":
+		if len(raw.Data) == 0 {
+			raw.Data = []byte{0}
+		} else {
+			raw.Data = append([]byte{}, raw.Data...)
+			raw.Data[len(raw.Data)-1] ^= 0x80
+		}
+	case "data_trunc":
+		if len(raw.Data) == 0 {
+			raw.Data = []byte{0, 0}
+		} else {
+			raw.Data = raw.Data[:len(raw.Data)-1]
+		}
+	case "netid_v":
+		// the same signature presented as a transaction of another network (otherNet = this network + 1)
+		raw.V.Add(raw.V, big.NewInt(2))
+	case "netid_signer":
+		foreign = true
+	case "netid_replay":
+		// the same fields signed by the same key for ANOTHER network, presented here with V rewritten to this network
+		os := types.NewYouSigner(otherNet)
+		var unsigned *types.Transaction
+		if tx.To() == nil {
+			unsigned = types.NewContractCreation(tx.Nonce(), tx.Value(), tx.Gas(), tx.GasPrice(), tx.Data())
+		} else {
+			unsigned = types.NewTransaction(tx.Nonce(), *tx.To(), tx.Value(), tx.Gas(), tx.GasPrice(), tx.Data())
+		}
+		otx, err := types.SignTx(unsigned, os, w.accts[t.S].Priv)
+		if err != nil {
+			return raw, false, err
+		}
+		ov, or, oss := otx.RawSignatureValues()
+		raw.R, raw.S = new(big.Int).Set(or), new(big.Int).Set(oss)
+		raw.V = new(big.Int).Sub(ov, big.NewInt(2))
+	case "highs":
+		raw.S = new(big.Int).Sub(secpN, raw.S)
+	case "highs_flipv":
+		raw.S = new(big.Int).Sub(secpN, raw.S)
+		flip()
+	case "flipv":
+		flip()
+	case "unprotected":
+		par := new(big.Int).Sub(raw.V, big.NewInt(35))
+		raw.V = big.NewInt(27 + int64(par.Bit(0)))
+	case "r":
+		raw.R = new(big.Int).Add(raw.R, big.NewInt(1))
+	default:
+		return raw, false, fmt.Errorf("unknown mutation %q", m)
+	}
+	return raw, foreign, nil
+}
+
+const otherNet = uint64(params.NetworkIdForTestCase + 1)
+
+// decode turns the mutated transaction into a fresh object the way a peer's message does: through RLP.
+func decode(raw *rawTx) (*types.Transaction, string) {
+	enc, err := rlp.EncodeToBytes(raw)
+	if err != nil {
+		return nil, "unencodable"
+	}
+	mt := new(types.Transaction)
+	if err := rlp.DecodeBytes(enc, mt); err != nil {
+		return nil, "decode: " + err.Error()
+	}
+	return mt, ""
+}
+
+// resolve asks signer for the sender of the object mt, through types.Sender and through AsMessage (what ApplyTransaction uses).
+func resolve(signer types.Signer, mt *types.Transaction, holder common.Address) (res, errmsg string) {
+	from, err := types.Sender(signer, mt)
+	switch {
+	case err != nil:
+		res, errmsg = "err", err.Error()
+	case from == holder:
+		res = "same"
+	default:
+		res = "other"
+	}
+	if msg, err2 := mt.AsMessage(signer); (err2 == nil) != (err == nil) || (err == nil && msg.From() != from) {
+		res = "inconsistent"
+	}
+	return res, errmsg
+}
+
+func (w *world) signedCase(c *TxCls) (*types.Transaction, *concrete, error) {
 	p, err := w.Begin(w.A, w.Vals[4].Addr)
 	if err != nil {
-		return err
+		return nil, nil, err
 	}
-	t, err := w.conc(b.Tx, p.State, 300000)
+	t, err := w.conc(c, p.State, 300000)
 	if err != nil {
-		return err
+		return nil, nil, err
 	}
 	tx, err := w.sign(t)
+	return tx, t, err
+}
+
+func (w *world) sig(env *drive.Env, b *Beh) error {
+	tx, t, err := w.signedCase(b.Tx)
 	if err != nil {
 		return err
 	}
 	holder := w.accts[t.S].Addr
-	v, r, s := tx.RawSignatureValues()
 	muts := b.Muts
 	if len(muts) == 0 {
 		muts = AllMutations
 	}
-	otherNet := uint64(params.NetworkIdForTestCase + 1)
 	for _, m := range muts {
-		raw := rawTx{Nonce: tx.Nonce(), Price: tx.GasPrice(), Limit: tx.Gas(), To: tx.To(), Value: tx.Value(), Data: tx.Data(),
-			V: new(big.Int).Set(v), R: new(big.Int).Set(r), S: new(big.Int).Set(s)}
-		signer := w.Signer
-		flip := func() {
-			// V = 35 + 2*net + parity: flip the parity
-			par := new(big.Int).Sub(raw.V, big.NewInt(35))
-			if par.Bit(0) == 0 {
-				raw.V.Add(raw.V, big.NewInt(1))
-			} else {
-				raw.V.Sub(raw.V, big.NewInt(1))
-			}
+		raw, foreign, err := w.mutate(tx, t, m)
+		if err != nil {
+			return err
 		}
-		switch m {
-		case "none":
-		case "nonce":
-			raw.Nonce++
-		case "price":
-			raw.Price = new(big.Int).Add(raw.Price, big.NewInt(1))
-		case "limit":
-			raw.Limit++
-		case "to":
-			if raw.To == nil {
-				a := addrRcpt
-				raw.To = &a
-			} else if t.Value%2 == 0 {
-				raw.To = nil
-			} else {
-				a := *raw.To
-				a[19] ^= 1
-				raw.To = &a
-			}
-		case "value":
-			raw.Value = new(big.Int).Add(raw.Value, big.NewInt(1))
-		case "data":
-			if len(raw.Data) == 0 {
-				raw.Data = []byte{0}
-			} else {
-				raw.Data = append([]byte{}, raw.Data...)
-				raw.Data[len(raw.Data)-1] ^= 0x80
-			}
-		case "data_trunc":
-			if len(raw.Data) == 0 {
-				raw.Data = []byte{0, 0}
-			} else {
-				raw.Data = raw.Data[:len(raw.Data)-1]
-			}
-		case "netid_v":
-			// the same signature presented as a transaction of another network
-			raw.V.Add(raw.V, big.NewInt(2))
-		case "netid_signer":
+		signer := w.Signer
+		if foreign {
 			signer = types.NewYouSigner(otherNet)
-		case "netid_replay":
-			// the same fields signed by the same key for ANOTHER network, presented here with V rewritten to this network
-			os := types.NewYouSigner(otherNet)
-			var unsigned *types.Transaction
-			if tx.To() == nil {
-				unsigned = types.NewContractCreation(tx.Nonce(), tx.Value(), tx.Gas(), tx.GasPrice(), tx.Data())
-			} else {
-				unsigned = types.NewTransaction(tx.Nonce(), *tx.To(), tx.Value(), tx.Gas(), tx.GasPrice(), tx.Data())
-			}
-			otx, err := types.SignTx(unsigned, os, w.accts[t.S].Priv)
-			if err != nil {
-				return err
-			}
-			ov, or, oss := otx.RawSignatureValues()
-			raw.R, raw.S = new(big.Int).Set(or), new(big.Int).Set(oss)
-			raw.V = new(big.Int).Sub(ov, big.NewInt(2)) // otherNet = this network + 1
-		case "highs":
-			raw.S = new(big.Int).Sub(secpN, raw.S)
-		case "highs_flipv":
-			raw.S = new(big.Int).Sub(secpN, raw.S)
-			flip()
-		case "flipv":
-			flip()
-		case "unprotected":
-			par := new(big.Int).Sub(raw.V, big.NewInt(35))
-			raw.V = big.NewInt(27 + int64(par.Bit(0)))
-		case "r":
-			raw.R = new(big.Int).Add(raw.R, big.NewInt(1))
-		default:
-			return fmt.Errorf("unknown mutation %q", m)
 		}
 		ev := map[string]interface{}{"ev": "Sender", "mut": m, "to": t.To, "pay": t.Pay}
 		func() {
@@ -519,32 +569,67 @@ func (w *world) sig(env *drive.Env, b *Beh) error {
 					ev["res"] = "panic"
 				}
 			}()
-			// the mutated transaction arrives the way a peer sends it: as RLP
-			enc, err := rlp.EncodeToBytes(&raw)
-			if err != nil {
-				ev["res"] = "unencodable"
+			mt, derr := decode(&raw)
+			if mt == nil {
+				ev["res"] = "err"
+				if derr == "unencodable" {
+					ev["res"] = derr
+				}
+				ev["errmsg"] = derr
 				return
 			}
-			var mt types.Transaction
-			if err := rlp.DecodeBytes(enc, &mt); err != nil {
-				ev["res"] = "err"
-				ev["errmsg"] = "decode: " + err.Error()
+			res, msg := resolve(signer, mt, holder)
+			ev["res"] = res
+			if msg != "" {
+				ev["errmsg"] = msg
+			}
+		}()
+		env.Emit(ev)
+	}
+	return nil
+}
+
+// sigseq resolves ONE decoded transaction object under a sequence of signers ("home": this network's signer, "foreign": a
+// signer for another network id).  The object caches the sender it was resolved to (types.Sender); each event also
+// records what a freshly decoded object answers to the same signer.
+func (w *world) sigseq(env *drive.Env, b *Beh) error {
+	tx, t, err := w.signedCase(b.Tx)
+	if err != nil {
+		return err
+	}
+	holder := w.accts[t.S].Addr
+	raw, foreign, err := w.mutate(tx, t, b.Mut)
+	if err != nil {
+		return err
+	}
+	if foreign {
+		return fmt.Errorf("mutation %q does not describe an object", b.Mut)
+	}
+	signers := map[string]types.Signer{"home": w.Signer, "foreign": types.NewYouSigner(otherNet)}
+	obj, derr := decode(&raw)
+	for i, sg := range b.Seq {
+		signer, ok := signers[sg]
+		if !ok {
+			return fmt.Errorf("unknown signer %q", sg)
+		}
+		ev := map[string]interface{}{"ev": "Resolve", "step": i + 1, "signer": sg, "mut": b.Mut, "cls": b.Tx, "before": b.Seq[:i]}
+		func() {
+			defer func() {
+				if r := recover(); r != nil {
+					ev["panic"] = fmt.Sprint(r)
+				}
+			}()
+			if obj == nil {
+				ev["res"], ev["fresh"], ev["errmsg"] = "err", "err", derr
 				return
 			}
-			from, err := types.Sender(signer, &mt)
-			switch {
-			case err != nil:
-				ev["res"] = "err"
-				ev["errmsg"] = err.Error()
-			case from == holder:
-				ev["res"] = "same"
-			default:
-				ev["res"] = "other"
+			res, msg := resolve(signer, obj, holder)
+			ev["res"] = res
+			if msg != "" {
+				ev["errmsg"] = msg
 			}
-			// AsMessage is what ApplyTransaction uses
-			if msg, err2 := mt.AsMessage(signer); (err2 == nil) != (err == nil) || (err == nil && msg.From() != from) {
-				ev["res"] = "inconsistent"
-			}
+			fresh, _ := decode(&raw)
+			ev["fresh"], _ = resolve(signer, fresh, holder)
 		}()
 		env.Emit(ev)
 	}
@@ -565,6 +650,10 @@ func run(env *drive.Env) error {
 			}
 		case "sig":
 			if err := w.sig(env, &b); err != nil {
+				return err
+			}
+		case "sigseq":
+			if err := w.sigseq(env, &b); err != nil {
 				return err
 			}
 		default:
